@@ -53,6 +53,9 @@ pub enum Op {
     Values(u64),
     /// touch the three precomputed type tables through several entry points
     TypeTables(u64),
+    /// two extra simulated threads build expressions over shared nodes in ONE inference context
+    /// (context handles are Clone + Send + Sync; every primitive step is one critical section)
+    SharedContext(u64),
     /// drop this thread's reference to shared program i (last-reference drops race)
     DropShared(usize),
 }
@@ -88,6 +91,7 @@ fn op_json(o: &Op) -> Json {
         Op::Human(k) => json!(["human", k]),
         Op::Values(s) => json!(["values", s.to_string()]),
         Op::TypeTables(s) => json!(["type_tables", s.to_string()]),
+        Op::SharedContext(s) => json!(["shared_context", s.to_string()]),
         Op::DropShared(i) => json!(["drop_shared", i]),
     }
 }
@@ -116,6 +120,7 @@ fn op_from(j: &Json) -> Option<Op> {
         "human" => Op::Human(u(1)),
         "values" => Op::Values(ju(&j[1])),
         "type_tables" => Op::TypeTables(ju(&j[1])),
+        "shared_context" => Op::SharedContext(ju(&j[1])),
         "drop_shared" => Op::DropShared(u(1)),
         _ => return None,
     })
@@ -450,6 +455,129 @@ fn type_tables_op(seed: u64) -> u64 {
     h.0
 }
 
+/// Two threads, one inference context. The constraint set drawn from the seed is used only if it
+/// is satisfiable in both sequential orders (A then B, B then A): unification is confluent, so
+/// every interleaving of the primitive steps must then succeed too and give the same types.
+fn shared_context_op(seed: u64, concurrent: bool) -> u64 {
+    #[derive(Clone, Copy)]
+    struct Step {
+        kind: u8,
+        a: usize,
+        b: usize,
+    }
+    let mut r = Rng::new(seed);
+    let n_shared = r.urange(1, 3);
+    let leaf_kinds: Vec<u8> = (0..n_shared).map(|_| r.below(3) as u8).collect();
+    let gen_steps = |r: &mut Rng| -> Vec<Step> {
+        let n = r.urange(1, 4);
+        (0..n).map(|i| Step { kind: r.below(9) as u8, a: r.usize_below(n_shared + i), b: r.usize_below(n_shared + i) }).collect()
+    };
+    let steps_a = gen_steps(&mut r);
+    let steps_b = gen_steps(&mut r);
+    fn leaves<'b>(ctx: &types::Context<'b>, kinds: &[u8]) -> Vec<Arc<ConstructNode<'b>>> {
+        kinds
+            .iter()
+            .map(|k| match k {
+                0 => Arc::<ConstructNode>::iden(ctx),
+                1 => simplicity::node::WitnessConstructible::witness(ctx, None),
+                _ => Arc::<ConstructNode>::unit(ctx),
+            })
+            .collect()
+    }
+    // operands: shared leaves first, then this thread's own results
+    fn build<'b>(_ctx: &types::Context<'b>, shared: &[Arc<ConstructNode<'b>>], steps: &[Step]) -> (bool, Vec<Arc<ConstructNode<'b>>>) {
+        let mut own: Vec<Arc<ConstructNode<'b>>> = Vec::new();
+        let mut ok = true;
+        for st in steps {
+            let get = |i: usize| -> Arc<ConstructNode<'b>> {
+                if i < shared.len() {
+                    Arc::clone(&shared[i])
+                } else {
+                    Arc::clone(&own[(i - shared.len()) % own.len().max(1)])
+                }
+            };
+            if own.is_empty() && (st.a >= shared.len() || st.b >= shared.len()) {
+                // not enough own nodes yet: use shared ones
+            }
+            let a = if st.a < shared.len() || !own.is_empty() { get(st.a) } else { Arc::clone(&shared[0]) };
+            let b = if st.b < shared.len() || !own.is_empty() { get(st.b) } else { Arc::clone(&shared[0]) };
+            let res: Result<Arc<ConstructNode<'b>>, types::Error> = match st.kind {
+                0 => Arc::<ConstructNode>::comp(&a, &b),
+                1 => Arc::<ConstructNode>::pair(&a, &b),
+                2 => Arc::<ConstructNode>::case(&a, &b),
+                3 => Arc::<ConstructNode>::assertl(&a, Cmr::from_byte_array([3; 32])),
+                4 => Arc::<ConstructNode>::assertr(Cmr::from_byte_array([4; 32]), &a),
+                5 => Ok(Arc::<ConstructNode>::injl(&a)),
+                6 => Ok(Arc::<ConstructNode>::take(&a)),
+                7 => Ok(Arc::<ConstructNode>::drop_(&a)),
+                _ => simplicity::node::DisconnectConstructible::disconnect(&a, &None),
+            };
+            match res {
+                Ok(n) => own.push(n),
+                Err(_) => {
+                    ok = false;
+                    break;
+                }
+            }
+        }
+        (ok, own)
+    }
+    fn digest_nodes(h: &mut Fnv, nodes: &[Arc<ConstructNode<'_>>]) {
+        for n in nodes {
+            match n.arrow().finalize() {
+                Ok(a) => {
+                    h.bytes(a.source.tmr().as_ref());
+                    h.bytes(a.target.tmr().as_ref());
+                }
+                Err(_) => h.u8(0xee),
+            }
+        }
+    }
+    // satisfiable in both sequential orders?
+    let sat = |first: &[Step], second: &[Step]| -> bool {
+        types::Context::with_context(|ctx| {
+            let sh = leaves(&ctx, &leaf_kinds);
+            build(&ctx, &sh, first).0 && build(&ctx, &sh, second).0
+        })
+    };
+    if !(sat(&steps_a, &steps_b) && sat(&steps_b, &steps_a)) {
+        return digest_bytes("shared-context-unsat", &[]);
+    }
+    types::Context::with_context(|ctx| {
+        let sh = leaves(&ctx, &leaf_kinds);
+        let (ra, rb) = if concurrent {
+            // results are handed out through slots rather than ScopedJoinHandle::join: in shuttle
+            // 0.9.3 the last scoped thread unblocks the scope's owner before its own result is
+            // stored, which trips an explicit join ("target should have finished")
+            let slot_a = StdMutex::new(None);
+            let slot_b = StdMutex::new(None);
+            shuttle::thread::scope(|s| {
+                s.spawn(|| {
+                    let r = build(&ctx, &sh, &steps_a);
+                    *slot_a.lock().unwrap() = Some(r);
+                });
+                s.spawn(|| {
+                    let r = build(&ctx, &sh, &steps_b);
+                    *slot_b.lock().unwrap() = Some(r);
+                });
+            });
+            let a = slot_a.lock().unwrap().take().expect("thread a ran");
+            let b = slot_b.lock().unwrap().take().expect("thread b ran");
+            (a, b)
+        } else {
+            (build(&ctx, &sh, &steps_a), build(&ctx, &sh, &steps_b))
+        };
+        let mut h = Fnv::new();
+        h.u8(u8::from(ra.0));
+        h.u8(u8::from(rb.0));
+        // finalise in a fixed order: shared leaves, A's nodes, B's nodes
+        digest_nodes(&mut h, &sh);
+        digest_nodes(&mut h, &ra.1);
+        digest_nodes(&mut h, &rb.1);
+        h.0
+    })
+}
+
 fn ill_typed_op(kind: u8) -> u64 {
     type N<'a> = Arc<ConstructNode<'a>>;
     types::Context::with_context(|ctx| {
@@ -490,7 +618,7 @@ fn ill_typed_op(kind: u8) -> u64 {
 }
 
 /// One operation. `mine[i]` is this thread's reference to shared program i (None once dropped).
-fn run_op(op: &Op, shared: &[Shared], mine: &mut [Option<Arc<RedeemNode>>]) -> u64 {
+fn run_op(op: &Op, shared: &[Shared], mine: &mut [Option<Arc<RedeemNode>>], concurrent: bool) -> u64 {
     let prog = |i: usize| -> Option<(usize, Arc<RedeemNode>)> {
         if mine.is_empty() {
             return None;
@@ -643,6 +771,7 @@ fn run_op(op: &Op, shared: &[Shared], mine: &mut [Option<Arc<RedeemNode>>]) -> u
         Op::Human(k) => human_op(*k),
         Op::Values(s) => values_op(*s),
         Op::TypeTables(s) => type_tables_op(*s),
+        Op::SharedContext(s) => shared_context_op(*s, concurrent),
         Op::DropShared(i) => {
             if !mine.is_empty() {
                 let i = i % mine.len();
@@ -676,7 +805,7 @@ fn sequential_digests(plan: &Plan) -> Vec<Vec<u64>> {
             ops.iter()
                 .map(|op| {
                     shuttle::current::reset_step_count();
-                    run_op(op, &plan.shared, &mut mine)
+                    run_op(op, &plan.shared, &mut mine, false)
                 })
                 .collect(),
         );
@@ -725,7 +854,7 @@ fn scenario(plan: &Plan, stats: &Arc<StdMutex<IterStats>>, iteration: usize) {
                 mine = shared.iter().map(|s| decode(s, &s.program, &s.witness).ok()).collect();
             }
             for (k, op) in ops.iter().enumerate() {
-                let d = run_op(op, &shared, &mut mine);
+                let d = run_op(op, &shared, &mut mine, true);
                 // an operation finished: progress was made, so the step bound (livelock detector)
                 // starts counting again
                 shuttle::current::reset_step_count();
@@ -781,6 +910,21 @@ fn scenario(plan: &Plan, stats: &Arc<StdMutex<IterStats>>, iteration: usize) {
 // ------------------------------------------------------------------------------------------
 // generation
 
+/// The one directory shuttle persists failing schedules to in this process.
+pub fn persist_dir() -> std::path::PathBuf {
+    let d = std::env::temp_dir().join(format!("vshuttle-{}", std::process::id()));
+    let _ = std::fs::create_dir_all(&d);
+    d
+}
+
+fn clear_persist_dir() {
+    if let Ok(rd) = std::fs::read_dir(persist_dir()) {
+        for e in rd.flatten() {
+            let _ = std::fs::remove_file(e.path());
+        }
+    }
+}
+
 /// Run `f` inside a single-threaded shuttle execution. The library is compiled with
 /// `verif-shuttle`, so every use of it — workload generation included — has to happen inside
 /// an execution.
@@ -790,7 +934,9 @@ pub fn in_shuttle<T: Send + 'static>(f: impl FnOnce() -> T + Send + 'static) -> 
     let slot2 = Arc::clone(&slot);
     let mut cfg = shuttle::Config::new();
     cfg.stack_size = 8 << 20;
-    cfg.failure_persistence = shuttle::FailurePersistence::None;
+    // shuttle installs its panic hook once per process with the configuration of the FIRST runner,
+    // so every runner of this process uses the same persistence directory
+    cfg.failure_persistence = shuttle::FailurePersistence::File(Some(persist_dir()));
     cfg.silence_warnings = true;
     cfg.max_steps = shuttle::MaxSteps::None;
     shuttle::Runner::new(RandomScheduler::new_from_seed(0, 1), cfg).run(move || {
@@ -845,7 +991,7 @@ fn gen_plan(r: &mut Rng, tier: Tier, out: &mut RunOut) -> Plan {
     let shared = gen_shared(r, out);
     let wide = r.chance(1, 8);
     let n_threads = if wide { r.urange(8, 16) } else { r.urange(2, 4) };
-    let mut w: [u32; 15] = [5, 3, 3, 5, 4, 4, 6, 5, 4, 3, 2, 2, 3, 4, 4];
+    let mut w: [u32; 16] = [5, 3, 3, 5, 4, 4, 6, 5, 4, 3, 2, 2, 3, 4, 4, 5];
     for x in w.iter_mut() {
         if r.chance(1, 5) {
             *x = 0;
@@ -875,7 +1021,8 @@ fn gen_plan(r: &mut Rng, tier: Tier, out: &mut RunOut) -> Plan {
                 11 => Op::Human(r.usize_below(8)),
                 12 => Op::Values(r.next_u64()),
                 13 => Op::DropShared(r.usize_below(ns)),
-                _ => Op::TypeTables(r.next_u64()),
+                14 => Op::TypeTables(r.next_u64()),
+                _ => Op::SharedContext(r.next_u64()),
             });
         }
         threads.push(ops);
@@ -960,8 +1107,8 @@ impl C20 {
     pub fn exec_plan(&self, plan: &Plan, out: &mut RunOut) {
         out.trace(|| plan.to_json());
         let stats = Arc::new(StdMutex::new(IterStats::default()));
-        let dir = std::env::temp_dir().join(format!("vshuttle-{}-{}", std::process::id(), plan.hash()));
-        let _ = std::fs::create_dir_all(&dir);
+        let dir = persist_dir();
+        clear_persist_dir();
         let cfg = shuttle_config(&dir);
         // reference digests from a fresh sequential process (unless the plan carries them)
         let mut plan_with_ref = plan.clone();
@@ -971,7 +1118,6 @@ impl C20 {
                 Err(msg) => {
                     out.eval(plan.hash(), false);
                     out.violation("reference-run-failed", "sequential-reference", msg, || plan.to_json());
-                    let _ = std::fs::remove_dir_all(&dir);
                     return;
                 }
             }
@@ -980,7 +1126,14 @@ impl C20 {
         let p = Arc::new(plan.clone());
         let st2 = Arc::clone(&stats);
         let counter = Arc::new(std::sync::atomic::AtomicUsize::new(0));
-        let result = std::panic::catch_unwind(std::panic::AssertUnwindSafe(|| {
+        // Each search runs on a fresh OS thread: shuttle remembers, per OS thread, the length of the
+        // last schedule it persisted and silently skips persisting another failing schedule of the
+        // same length, which would lose the schedule of every later failure in this process.
+        let result = std::thread::scope(|sc| {
+            std::thread::Builder::new()
+                .stack_size(64 << 20)
+                .spawn_scoped(sc, || {
+        std::panic::catch_unwind(std::panic::AssertUnwindSafe(|| {
             let f = move || {
                 let it = counter.fetch_add(1, std::sync::atomic::Ordering::Relaxed);
                 scenario(&p, &st2, it)
@@ -997,7 +1150,12 @@ impl C20 {
                 let sch = RandomScheduler::new_from_seed(plan.sched_seed, plan.iterations);
                 shuttle::Runner::new(sch, cfg).run(f);
             }
-        }));
+        }))
+                })
+                .expect("spawn search thread")
+                .join()
+                .unwrap_or_else(Err)
+        });
         let st = stats.lock().unwrap_or_else(|e| e.into_inner());
         for h in &st.order_hashes {
             out.eval(*h ^ plan.hash(), true);
@@ -1030,9 +1188,12 @@ impl C20 {
             let (class, key) = violation_key(&msg);
             let mut failing = plan.clone();
             failing.schedule = schedule.or_else(|| plan.schedule.clone());
+            // replay recomputes the sequential reference in a fresh process from the code under test
+            failing.reference = None;
+            let msg = format!("{} [schedule persisted by shuttle: {} chars]", msg, failing.schedule.as_ref().map(|s| s.len()).unwrap_or(0));
             out.violation(class, &key, msg, || failing.to_json());
         }
-        let _ = std::fs::remove_dir_all(&dir);
+        clear_persist_dir();
     }
 }
 
@@ -1112,6 +1273,8 @@ impl Engine for C20 {
         // it no longer fits a smaller workload (the search is re-run with the same seed)
         let mut p = Plan::from_json(plan);
         p.schedule = None;
+        // the reference digests belong to the un-shrunk workload: recomputed for every candidate
+        p.reference = None;
         let mut c: Vec<Plan> = Vec::new();
         for t in 0..p.threads.len() {
             if p.threads.len() > 1 {
